@@ -854,7 +854,7 @@ def run(ctx):
     # Diff/XuValue.v): the same pairs go to the direct oracle and to the correspondence (tree view incl. the normalised
     # datetimes DeepDiff reports, text view, Python == vs py_eq, DeepHash's pre-hash texts)
     from harness import xucommon as XU
-    xu_pairs = XU.gen_pairs(ctx.rng, 110 if ctx.thorough else 12)
+    xu_pairs = XU.gen_pairs(ctx.rng, 60 if ctx.thorough else 6)
     for (a, b, kind, is_copy) in xu_pairs:
         ctx.count("gen:xu_model:" + ":".join(kind.split("@")[0].split(":")[:2]))
         oracle_pair(ctx, a, b, is_copy, full_grid=False, stats_key="verdict_xu_model", model_ok=False)
